@@ -141,6 +141,10 @@ SPECIAL = [
                                                                  {"name": "a", "type": {"type": "array", "items": "int"}, "default": [1, 2]}, {"name": "m", "type": {"type": "map", "values": "string"}, "default": {"k": "v"}},
                                                                  {"name": "r", "type": {"type": "record", "name": "In", "fields": [{"name": "q", "type": "int", "default": 1}]}, "default": {"q": 9}},
                                                                  {"name": "e", "type": family.E(), "default": "B"}, {"name": "s", "type": "string", "default": "dflt"}, {"name": "b", "type": "bytes", "default": "ÿ"}]}),
+    ("same-type-different-defaults", {"type": "record", "name": "SD", "fields": [
+        {"name": "c1", "type": family.E(), "default": "A"}, {"name": "c2", "type": "E", "default": "B"}, {"name": "c3", "type": "E", "default": "C"}, {"name": "c4", "type": "E"},
+        {"name": "p1", "type": {"type": "record", "name": "Pt", "fields": [{"name": "x", "type": "int"}]}, "default": {"x": -1}}, {"name": "p2", "type": "Pt", "default": {"x": 9}},
+        {"name": "f1", "type": family.F(), "default": "ab"}, {"name": "f2", "type": "F", "default": "cd"}, {"name": "f3", "type": "F"}]}),
     ("namespaced-union", {"type": "record", "name": "N", "namespace": "ns.x", "fields": [{"name": "u", "type": ["null", {"type": "enum", "name": "En", "symbols": ["A"]}, {"type": "fixed", "name": "other.Fx", "size": 1},
                                                                                                         {"type": "record", "name": "Rr", "fields": [{"name": "z", "type": "int"}]}, {"type": "array", "items": "int"}, {"type": "map", "values": "int"}, "string", "bytes", "double"]}]}),
 ]
@@ -170,6 +174,8 @@ def special_data(label, node, defs):
         return out
     if label == "map-keys":
         return [{"name": "n", "m": m, "after": 7} for m in ({}, {"name": 1}, {"after": 2, "m": 3}, {"": 4}, {"": 5, "x": 6}, {"é\"\\\n": 8}, {"k": 9, "name": 10, "after": 11})]
+    if label == "same-type-different-defaults":
+        return [{"c1": "C", "c2": "C", "c3": "A", "c4": "B", "p1": {"x": 1}, "p2": {"x": 2}, "f1": b"11", "f2": b"22", "f3": b"33"}]
     if label == "null-default":
         full = {"n": None, "u": 5, "x": 1, "a": [7], "m": {"z": "y"}, "r": {"q": 2}, "e": "C", "s": "str", "b": b"\x00\xfe"}
         out = [full]
